@@ -94,6 +94,7 @@ def run(chk: core.Check):
     chk.stages["free_runs"] = free
     from harness.props import c12_extra
 
+    chk.stages["ctrl_c_in_consumer"] = ctrl_c_runs(chk, (4 if quick else 40) * (3 if chk.broken else 1))
     chk.stages["settings_merge"] = c12_extra.settings_stage(chk, 40 if quick else 400, 2 if quick else 12)
     chk.stages["outcome_cache_refinement"] = c12_extra.cache_refinement_stage(chk, 12 if quick else 120, (30000 if quick else 1000000) * (10 if chk.broken else 1))
     chk.stages["unique_inputs"] = c12_extra.unique_stage(chk, (8 if quick else 80) * (3 if chk.broken else 1))
@@ -150,6 +151,61 @@ def after_limit(chk, n):
             if after > 2 * workers:
                 found += 1
                 chk.fail(f"{after} requests sent after the failure limit was reached with {workers} workers", cfg)
+    return {"runs": n, "over": found}
+
+
+def ctrl_c_runs(chk, n):
+    """A real KeyboardInterrupt in the consumer (main) thread while the workers are busy - not EventStream.stop(): the stop flag is
+    NOT set beforehand.  The handler has to set it while the workers are still running; afterwards at most one further request per
+    worker (plus the one that may slip in before the flag is visible) may arrive."""
+    import time as _time
+
+    from schemathesis.core import _verif
+
+    from harness.loopback import Recorder
+
+    rng = chk.rng
+    found = 0
+    for k in range(n):
+        workers = rng.choice([1, 2, 2, 3])
+        n_ops = workers * 3 + rng.randint(0, 2)
+        me = rng.randint(6, 12)
+        nth = rng.randint(3, 8)
+        where = rng.choice(["c_get", "c_post"])
+
+        def responder(item):
+            _time.sleep(0.01)
+            return 200, [("Content-Type", "application/json")], b"{}"
+
+        rec = Recorder(responder)
+        box = {"n": 0}
+
+        class CtrlC:
+            def point(self, name, ctx, box=box, rec=rec, where=where, nth=nth):
+                import threading as _threading
+
+                if name == where and _threading.current_thread() is _threading.main_thread():
+                    box["n"] += 1
+                    if box["n"] == nth:
+                        box["at"] = len(rec.requests)
+                        raise KeyboardInterrupt
+
+        _verif.set_controller(CtrlC())
+        try:
+            evs, reqs = run_engine(U.schema_with_ops(n_ops), None, phases=["fuzzing"], workers=workers, max_examples=me, seed=k + 1, rec=rec)
+        finally:
+            _verif.set_controller(None)
+            rec.close()
+        cfg = {"ctrl_c_in_consumer": where, "nth_visit": nth, "workers": workers, "ops": n_ops, "max_examples": me, "seed": k}
+        chk.seen(cfg, "at" in box)
+        if "at" in box:
+            after = len(reqs) - box["at"]
+            started_after = 0
+            if after > 2 * workers:
+                found += 1
+                chk.fail(f"{after} requests sent after Ctrl-C reached the consumer ({workers} workers): the workers were not told to stop", cfg)
+            if not any(event_kind(e) == "Interrupted" for e in evs):
+                chk.fail("Ctrl-C in the consumer: no Interrupted event", cfg)
     return {"runs": n, "over": found}
 
 
